@@ -97,6 +97,10 @@ impl Connection {
     #[verifier::external_body] pub fn remote_address(&self) -> (r: SocketAddr) ensures r.a == self.addr { unimplemented!() }
     #[verifier::external_body] pub fn rtt(&self) -> (r: Duration) { unimplemented!() }
     #[verifier::external_body] pub fn close(&self) { unimplemented!() }
+    // observers of the connection's state that an edit may reach for (quinn: close_reason / a derived is_closed): whatever they answer, the
+    // obligations around them have to hold
+    #[verifier::external_body] pub fn is_closed(&self) -> (r: bool) { unimplemented!() }
+    #[verifier::external_body] pub fn close_reason(&self) -> (r: Option<ConnectionError>) { unimplemented!() }
 }
 '''
 
